@@ -23,11 +23,13 @@ THEOREMS: Dict[str, str] = {
     "C10_attr_inert_in_tag": "full",
     "C10_attr_inert": "full",
     "C10_id_charset": "full",
+    "C10_cell_skeleton_partial": "partial",
     "C10_template_sinks": "full",
     "C10_markup_escape_inert": "full",
     "C10_ex_tokenize": "example",
     "C10_ex_escape": "example",
     "C10_ex_sinks": "example",
+    "C10_ex_cell": "example",
     "C10_ex_id": "example",
 }
 TRUSTED = [
